@@ -71,7 +71,7 @@ def operand(rng: Any, s: Any, kind: str | None = None, *, square: bool = False) 
         return 'atom', gen.atom(rng, s, only=sq if square else None)
     e = gen.expr(rng, s, b)
     if square and not dense.struct_eq(e.out_structure(), s):
-        e = e.T @ e
+        e = e.T @ e if 'InverseOperator' not in dense.class_names(e) else gen.a_homothety(rng, s)
     return 'expr', e
 
 
